@@ -166,6 +166,63 @@ fn check_text(g: &Grammar, seq: &[usize], text: &str, variant: &str, acc: &mut A
     }
 }
 
+/// a hand-written rule text against the reference rule-text model; the text must be a rule (or a
+/// rejection) in the reference, anything the reference leaves unspecified is skipped
+fn check_raw_rule(g: &Grammar, text: &str, comments: &[&str], label: &str, acc: &mut Acc) {
+    acc.count("executions", 1);
+    let (exp, exp_expr) = expected_with_comments(g, comments, text);
+    match (&exp, impl_parse_rule(text)) {
+        (_, ImplParse::Panic(p)) => acc.violation(Violation {
+            sig: format!("{label}/panic"),
+            what: format!("Rule::parse({text:?}) panicked: {p}"),
+            case: json!({"kind": "raw", "text": text, "comments": comments}),
+            size: text.len(),
+        }),
+        (Expected::Rule { name, description, metas, .. }, ImplParse::Ok(r)) => {
+            let mut got_m = r.metadata.clone();
+            if !metas.contains_key("description") {
+                got_m.remove("description");
+            }
+            if r.name != *name || r.description != *description || got_m != *metas || Some(&r.expr) != exp_expr.as_ref() {
+                acc.violation(Violation {
+                    sig: format!("{label}/{}", if r.name != *name { "name" } else if r.description != *description { "description" } else if got_m != *metas { "metadata" } else { "expression" }),
+                    what: format!(
+                        "Rule::parse({text:?}): name {:?} / description {:?} / metadata {} / expression {}, expected {name:?} / {description:?} / {} / {}",
+                        r.name,
+                        r.description,
+                        show_m(&got_m),
+                        show_tree(&r.expr),
+                        show_m(metas),
+                        exp_expr.as_ref().map(show_tree).unwrap_or_default()
+                    ),
+                    case: json!({"kind": "raw", "text": text, "comments": comments}),
+                    size: text.len(),
+                });
+            }
+            acc.outcome(format!("{label}:ok"));
+        }
+        (Expected::Rule { .. }, other) => acc.violation(Violation {
+            sig: format!("{label}/rejected"),
+            what: format!("Rule::parse({text:?}) did not produce a rule: {}", short(&other)),
+            case: json!({"kind": "raw", "text": text, "comments": comments}),
+            size: text.len(),
+        }),
+        (Expected::Rejected, ImplParse::Ok(r)) => acc.violation(Violation {
+            sig: format!("{label}/accepted"),
+            what: format!("Rule::parse({text:?}) accepted (name {:?}) a text that is not a rule", r.name),
+            case: json!({"kind": "raw", "text": text, "comments": comments}),
+            size: text.len(),
+        }),
+        (Expected::MissingName, ImplParse::Ok(r)) => acc.violation(Violation {
+            sig: format!("{label}/name-invented"),
+            what: format!("Rule::parse({text:?}) has name {:?} although the text supplies none", r.name),
+            case: json!({"kind": "raw", "text": text, "comments": comments}),
+            size: text.len(),
+        }),
+        _ => acc.outcome(format!("{label}:other")),
+    }
+}
+
 fn short<T: std::fmt::Debug>(x: &ImplParse<T>) -> String {
     let s = format!("{x:?}");
     s.chars().take(160).collect()
@@ -271,7 +328,6 @@ pub fn run(tier: Tier) -> i32 {
             ("@name: (\"N\");\n@k: ((none));\n((i1) + (i2))", vec![], "N", vec![("k", RV::None)]),
             ("// c\n@k: ({});\n@l: ([]);\n@m: (((true)));\ni1", vec!["c"], "c", vec![("k", RV::map(&[])), ("l", RV::List(vec![])), ("m", RV::Bool(true))]),
         ] {
-            acc0.count("executions", 1);
             let (exp, _) = expected_with_comments(&g, &comments, text);
             let want: BTreeMap<String, RV> = want_meta.into_iter().map(|(k, v)| (k.to_string(), v)).collect();
             let consistent = matches!(&exp, Expected::Rule { name, metas, .. } if name == want_name && *metas == want);
@@ -279,15 +335,7 @@ pub fn run(tier: Tier) -> i32 {
                 acc0.machinery(format!("reference disagrees with the hand-written expectation for {text:?}: {exp:?}"));
                 continue;
             }
-            match impl_parse_rule(text) {
-                ImplParse::Ok(r) if r.name == want_name && r.metadata == want => acc0.outcome("parenthesised-metadata:ok"),
-                other => acc0.violation(Violation {
-                    sig: format!("parenthesised-metadata/{}", text.len()),
-                    what: format!("Rule::parse({text:?}): parentheses only group, expected name {want_name:?} and metadata {:?}, got {}", show_m(&want), short(&other)),
-                    case: json!({"kind": "raw", "text": text}),
-                    size: text.len(),
-                }),
-            }
+            check_raw_rule(&g, text, &comments, "parenthesised-metadata", &mut acc0);
         }
         // string literals ending in an escaped backslash / containing quotes, in metadata values and in
         // the expression, followed by comment lines (comment extraction must not be confused)
@@ -297,31 +345,65 @@ pub fn run(tier: Tier) -> i32 {
             ("// n\nx == \"C:\\\\\"\n// d1\n// d2", vec!["n", "d1", "d2"]),
             ("// n\n@q: \"say \\\"hi\\\"\";\n@r: \"// not a comment\";\n// d\n\"//\" + \"\\\\\"\n// e", vec!["n", "d", "e"]),
         ] {
-            acc0.count("executions", 1);
-            let (exp, exp_expr) = expected_with_comments(&g, &comments, text);
-            match (&exp, impl_parse_rule(text)) {
-                (Expected::Rule { name, description, metas, .. }, ImplParse::Ok(r)) => {
-                    let mut got_m = r.metadata.clone();
-                    if !metas.contains_key("description") {
-                        got_m.remove("description");
-                    }
-                    if r.name != *name || r.description != *description || got_m != *metas || Some(&r.expr) != exp_expr.as_ref() {
-                        acc0.violation(Violation {
-                            sig: format!("escaped-backslash-text/{}", text.len()),
-                            what: format!("Rule::parse({text:?}): name {:?} / description {:?} / metadata {}, expected {name:?} / {description:?} / {}", r.name, r.description, show_m(&got_m), show_m(metas)),
-                            case: json!({"kind": "raw", "text": text}),
-                            size: text.len(),
-                        });
-                    }
-                    acc0.outcome("escaped-backslash-text:ok");
+            check_raw_rule(&g, text, &comments, "escaped-backslash-text", &mut acc0);
+        }
+        // names written as string literals: the name is the literal's value, character for character
+        // (leading / trailing / only white space of every kind, raw and escaped)
+        {
+            let contents: Vec<&str> = vec![
+                "N", " N", "N ", " N ", "\tN", "N\t", "\\tN\\t", "N\\n", "\\u{a0}N\\u{a0}", "\u{a0}N\u{2003}", " ", "  ", "\\t", "\\u{20}", "a  b", "N // x", "// N", "N\u{3000}", "\u{feff}N",
+                "\\u{4e}", " \\u{4e} ", "n\\\\", "\\\"N\\\"", "ＮＡＭＥ ", "N\r",
+            ];
+            for c in &contents {
+                for (tmpl, comments) in [
+                    ("@name: \"{}\";\nx", vec![]),
+                    ("// c\n@name: \"{}\";\n// d\nx", vec!["c", "d"]),
+                    ("@name: \"other\";\n@name: \"{}\";\nx", vec![]),
+                    ("@name: (\"{}\");\n@description: \"{}\";\nx", vec![]),
+                ] {
+                    let text = tmpl.replace("{}", c);
+                    check_raw_rule(&g, &text, &comments, "name-literal", &mut acc0);
+                    acc0.count("name_literal_texts", 1);
                 }
-                (Expected::Rule { .. }, other) => acc0.violation(Violation {
-                    sig: format!("escaped-backslash-text/{}", text.len()),
-                    what: format!("Rule::parse({text:?}) did not produce a rule: {}", short(&other)),
-                    case: json!({"kind": "raw", "text": text}),
-                    size: text.len(),
-                }),
-                (other, _) => acc0.machinery(format!("reference does not accept the hand-written rule text {text:?}: {other:?}")),
+            }
+        }
+        // raw line breaks inside string literals of a rule text (metadata values and expression), in
+        // LF and CRLF files: the literal keeps the characters written
+        {
+            let breaks = ["\n", "\r\n", "\r", "\n\n", "\r\r\n", "\n\r", "\r\n\r\n", "\t\r\n "];
+            for b in breaks {
+                for eol in ["\n", "\r\n"] {
+                    for text in [
+                        format!("// n{eol}@k: \"a{b}b\";{eol}x"),
+                        format!("// n{eol}x == \"a{b}b\"{eol}"),
+                        format!("// n{eol}@k: [\"{b}\", {{a: \"x{b}\"}}];{eol}@name: \"N{b}M\";{eol}[\"{b}b\"]{eol}// d"),
+                        format!("@name: \"N\";{eol}@description: \"line1{b}line2\";{eol}\"p{b}q\" + \"r{b}\""),
+                    ] {
+                        let comments: Vec<&str> = text.split(['\n', '\r']).filter_map(|l| { let t = l.trim(); if t.starts_with("//") && (t == "// n" || t == "// d") { Some(t[2..].trim()) } else { None } }).collect();
+                        check_raw_rule(&g, &text, &comments, "line-break-in-literal", &mut acc0);
+                        acc0.count("line_break_literal_texts", 1);
+                    }
+                }
+            }
+        }
+        // repeated keys whose constants are equal under == but written differently: the last written
+        // constant is kept, with its scale / sign / element spelling
+        {
+            let pairs = [
+                ("d2.5", "d2.50"), ("d2.50", "d2.5"), ("f0", "f-0"), ("f-0.0", "f0.0"), ("d0", "d-0"), ("d-0.0", "d0"), ("[d1.0]", "[d1]"), ("{a: d1}", "{a: d1.00}"), ("[f0, d2.5]", "[f-0, d2.500]"),
+                ("d1", "d1"), ("i1", "i1"), ("\"a\"", "\"a\""), ("d100", "d1_00"), ("d1e2", "d100"),
+            ];
+            for (a, b) in pairs {
+                for text in [
+                    format!("// n\n@k: {a};\n@k: {b};\nx"),
+                    format!("// n\n@k: {a};\n@j: i1;\n@k: {b};\nx"),
+                    format!("// n\n@k: {a};\n@k: {b};\n@k: {a};\n@k: {b};\nx"),
+                    format!("// n\n@k: {a};\n@k: {a};\n@k: {b};\n@j: {b};\n@j: {a};\nx"),
+                    format!("@name: \"n\";\n@description: {a};\n@description: {b};\nx"),
+                ] {
+                    check_raw_rule(&g, &text, &["n"], "equal-but-different-duplicates", &mut acc0);
+                    acc0.count("duplicate_constant_texts", 1);
+                }
             }
         }
         // many metadata items with repeated keys in scrambled order: the last written value wins
@@ -358,6 +440,24 @@ pub fn run(tier: Tier) -> i32 {
 }
 
 pub fn replay(case: &serde_json::Value) -> i32 {
+    if case.get("kind").and_then(|k| k.as_str()) == Some("raw") {
+        let text = case.get("text").and_then(|t| t.as_str()).unwrap_or("");
+        let comments: Vec<String> = case.get("comments").and_then(|a| a.as_array()).map(|a| a.iter().filter_map(|x| x.as_str().map(|s| s.to_string())).collect()).unwrap_or_default();
+        let cref: Vec<&str> = comments.iter().map(|s| s.as_str()).collect();
+        let g = Grammar::new();
+        let mut acc = Acc::new();
+        check_raw_rule(&g, text, &cref, "raw", &mut acc);
+        println!("text      : {text:?}\nreference : {:?}\nobserved  : {}", expected_with_comments(&g, &cref, text).0, short(&impl_parse_rule(text)));
+        return if acc.violations.is_empty() {
+            println!("verdict: holds");
+            0
+        } else {
+            for v in acc.violations.values() {
+                println!("verdict: VIOLATED — {}", v.what);
+            }
+            1
+        };
+    }
     let seq: Vec<usize> = case
         .get("lines")
         .and_then(|a| a.as_array())
